@@ -2,7 +2,7 @@
 dynamic invocation of each hook kind, for every k, then PAIRS of faults (bounded); contract: extract returns a Stack, every
 injected exception that was actually raised is retrievable (by identity) from the error tree of the result, frames outward
 of the failure equal the fault-free extraction, and the result formats and summarises.
-Bounds: 6 scenarios; hooks {unwrap_stackitem, FrameIterator.__next__, elaborate_frame, contexts_active_in_frame,
+Bounds: 7 scenarios; hooks {unwrap_stackitem, FrameIterator.__next__, elaborate_frame, contexts_active_in_frame,
 elaborate_context, unwrap_context}; all single faults; pairs (k1<k2) of the same or different hook kinds, capped."""
 import sys, os, types, contextlib, threading, itertools
 sys.path.insert(0, os.path.dirname(__file__))
@@ -10,7 +10,7 @@ from _leg import Leg, THOROUGH
 import stackscope
 from stackscope import _extract as E, _customization as Cu
 
-leg = Leg("c05_faults", "6 scenarios x 6 hook kinds x every dynamic invocation index (single faults, exhaustive) + bounded pairs; "
+leg = Leg("c05_faults", "7 scenarios x 6 hook kinds x every dynamic invocation index (single faults, exhaustive) + bounded pairs; "
                         "non-trivial = fault actually raised; distinct by (scenario, hook, k)")
 
 
@@ -138,6 +138,30 @@ def scenario_unwrapped_gcm():
     return g, (lambda: g.close())
 
 
+@contextlib.asynccontextmanager
+async def exiting_acm():
+    try:
+        yield
+    finally:
+        with Probe("in-exit"):
+            await trap()
+
+
+@stackscope.unwrap_context_generator.register(exiting_acm.__wrapped__)
+def _unwrap_exiting(frame, ctx):
+    return INNER_MGR
+
+
+def scenario_exiting_gcm():
+    # a generator-based manager with a registered unwrapper, observed WHILE IT IS EXITING: there is no inner stack, the glue
+    # extracts the generator's outermost frame itself (a nested extract_outermost): a fault met there is a fault, not "no frames"
+    async def user():
+        async with exiting_acm():
+            pass
+    c = user(); c.send(None)
+    return c, (lambda: c.close())
+
+
 HOOKS = [("unwrap_stackitem", E, "unwrap_stackitem"), ("elaborate_frame", E, "elaborate_frame"), ("elaborate_context", E, "elaborate_context"),
          ("unwrap_context", E, "unwrap_context"), ("contexts_active_in_frame", E, "contexts_active_in_frame"),
          ("FrameIterator.__next__", Cu.FrameIterator, "__next__")]
@@ -168,6 +192,21 @@ class Injector:
         s.raised = []
         s.orig = {}
     def __enter__(s):
+        # nested extract_outermost calls made by glue: which injected faults were raised inside one that then RETURNED a frame
+        # (such a fault was recorded in that call's private error list, which a Frame cannot carry: finding F19)
+        s.eo_orig = E.extract_outermost
+        s.eo_stack = []
+        s.dropped_by_eo = []
+        def eo_wrapper(*a, **kw):
+            s.eo_stack.append([])
+            try:
+                r = s.eo_orig(*a, **kw)
+            except BaseException:
+                s.eo_stack.pop()
+                raise
+            s.dropped_by_eo += s.eo_stack.pop()
+            return r
+        E.extract_outermost = eo_wrapper
         for label, mod, name in HOOKS:
             orig = getattr(mod, name)
             s.orig[label] = (mod, name, orig)
@@ -176,7 +215,9 @@ class Injector:
                     s.count[label] = s.count.get(label, 0) + 1
                     exc = s.plan.get((label, s.count[label]))
                     if exc is not None:
-                        s.raised.append(exc); raise exc
+                        s.raised.append(exc)
+                        if s.eo_stack: s.eo_stack[-1].append(exc)
+                        raise exc
                     return orig(*a, **kw)
                 for attr in ("register", "dispatch", "registry"):
                     if hasattr(orig, attr): setattr(wrapper, attr, getattr(orig, attr))
@@ -184,6 +225,7 @@ class Injector:
             setattr(mod, name, mk())
         return s
     def __exit__(s, *a):
+        E.extract_outermost = s.eo_orig
         for label, (mod, name, orig) in s.orig.items():
             setattr(mod, name, orig)
 
@@ -205,6 +247,8 @@ def check(scen_name, item, basepy, plan_desc, plan):
         return f"extract raised {st!r}", inj
     errs = []; all_errors(st, errs)
     lost = [x for x in inj.raised if not any(contains(e, x) for e in errs)]
+    if lost and all(any(x is y for y in inj.dropped_by_eo) for x in lost):
+        return f"F19: raised inside a nested extract_outermost that returned its frame, not retrievable from any .error: {lost!r}", inj
     if lost:
         return f"raised but not retrievable from any .error: {lost!r} (reported: {[repr(e)[:50] for e in errs]})", inj
     got = [f.pyframe for f in st.frames]
@@ -228,7 +272,8 @@ def check_base(item):
 
 PAIR_CAP = 4000 if THOROUGH else 700
 SEEN_F11 = []
-for scen in (scenario_coro, scenario_thread, scenario_slice, scenario_custom, scenario_nonstack, scenario_unwrapped_gcm):
+SEEN_F19 = []
+for scen in (scenario_coro, scenario_thread, scenario_slice, scenario_custom, scenario_nonstack, scenario_unwrapped_gcm, scenario_exiting_gcm):
     item, cleanup = scen()
     try:
         _, inj0 = check(scen.__name__, item, None, None, {})
@@ -240,7 +285,11 @@ for scen in (scenario_coro, scenario_thread, scenario_slice, scenario_custom, sc
             exc = Inj(f"{label}@{k}")
             msg, inj = check(scen.__name__, item, basepy, (label, k), {(label, k): exc})
             leg.case((scen.__name__, label, k), bool(inj.raised), sample=dict(scenario=scen.__name__, hook=label, k=k) if k == 2 and len(leg.samples) < 5 else None)
-            if msg:
+            if msg and msg.startswith("F19:"):
+                if not SEEN_F19:
+                    SEEN_F19.append(1)
+                    leg.violation("fault-recorded-by-nested-extract_outermost-dropped", f"{scen.__name__}:{label}@{k}: {msg}")
+            elif msg:
                 # one canonical key for "an error recorded in an inner stack is thrown away when the unwrap succeeds" (finding F11);
                 # any other failure of this scenario keeps its own key
                 if scen is scenario_unwrapped_gcm and msg.startswith("raised but not retrievable"):
@@ -255,7 +304,7 @@ for scen in (scenario_coro, scenario_thread, scenario_slice, scenario_custom, sc
             plan = {(l1, k1): Inj(f"{l1}@{k1}"), (l2, k2): Inj(f"{l2}@{k2}")}
             msg, inj = check(scen.__name__, item, basepy, ((l1, k1), (l2, k2)), plan)
             leg.case((scen.__name__, l1, k1, l2, k2), len(inj.raised) == 2)
-            if msg and not (scen is scenario_unwrapped_gcm and msg.startswith("raised but not retrievable")):
+            if msg and not msg.startswith("F19:") and not (scen is scenario_unwrapped_gcm and msg.startswith("raised but not retrievable")):
                 leg.violation(f"{scen.__name__}:{l1}@{k1}+{l2}@{k2}", msg)
     finally:
         cleanup()
